@@ -13,9 +13,52 @@
   (`DSN.join`, `split('#')`, `split('.')`, `ModuleDSN.expanded`), and the one string-LENGTH comparison (`__allow_scope`) is
   safe in the only context it is used in.  `VarsCollector._merged` used a bare `startswith` until 526fc7c (refuted then by the
   witnesses `for@10`/`for@107` and `ab`/`abc`); the repaired element-wise test is proved to refine (`string_refines_merging`).
+
+  Part 3 (`*_naming`, `*_member_lookup`, `fragment_*`): class naming (`helper/naming.py`), the by-name member lookup of enums
+  and the regex post-processing of rendered fragments (`PatternParser`).
+
+  ## Every place where a string that can contain a user identifier is compared other than by `==` on whole names
+  (grep of finder.py, dsn/*.py, node.py, statement_compound.py, primary.py, naming.py, py2cpp.py for `startswith(`, `endswith(`,
+  ` in `, `.find(`, `.replace(`, `.split(`, `.count(`, `re.`; lines of HEAD 2d32958)
+
+  | site | what is compared | delimiter-safe? |
+  |---|---|---|
+  | finder.py:143 `len(node.scope) <= len(scope.dsn)` | string LENGTHS of two scope strings | yes in context (scope is a prefix of node.scope, names non-empty): `string_refines_scopes` |
+  | finder.py:149,228,265 `key in db` | whole key strings | yes: `encKey` injective (`string_refines_dsn`) |
+  | finder.py:156-158 `full_path.replace(types.full_path + '.class_def_raw.block.', '')`, `'function_def_raw.block' in …` | ENTRY paths (grammar tags + indices, no user name) | n/a for names; same function in both layers (`inAltClass`), `equivariant_scopes` |
+  | dsn.py:14 `origin.startswith(delimiter)`, `count(delimiter)` | the delimiter character | yes |
+  | dsn.py:26 `origin.split(delimiter)` | delimiter | yes: `dsnElements_encName` (in `string_refines_dsn`) |
+  | dsn.py:120 `origin.startswith(starts + delimiter)` | prefix incl. delimiter | yes |
+  | dsn.py:123 `origin.split(starts)[1]` | BARE multi-character split | NO as a function: `relativefy_counterexample` (`ab.ab.c` relative to `ab`). Callers: EntryPath.relativefy / general.py:51 (entry paths rooted at the unique tag `file_input`), naming.py:153 (handler-less `__namespace`: never entered with a user name because a namespace `mod#…` never starts with `mod.`; not reachable from Py2Cpp). Modelled on strings (`namespaceNoHandler`), correspondence only |
+  | module.py:48,75 `find('#')`, :98 `split('#')` | the `#` delimiter | yes: `string_refines_dsn` |
+  | statement_compound.py:341 `full_path.count('class_def') > 1` | ENTRY path substring | n/a for names |
+  | statement_compound.py:523,547 `tokens == '__init__'` | equality with a reserved word | yes |
+  | statement_compound.py:733 `'Enum' in [tokens …]` | list membership = equality with a reserved word | yes: `isEnum` |
+  | statement_compound.py:749 `domain_name == var_name` (Enum.var_value) | equality of member names | yes: `equivariant_member_lookup`; the `endswith` variant is refuted: `member_lookup_suffix_counterexample` |
+  | statement_compound.py:829-834 `_merged` | element lists (`ModuleDSN.expanded`, since 526fc7c) | yes: `string_refines_merging` |
+  | primary.py:257,268,782,797,812,832 `tokens == 'cls'/'self'`, `in ['cls','self']`; :384,397,549 `== 'list'/'dict'/'super'` | equality with reserved words | yes |
+  | primary.py:717 `endswith('class_var_assign.assign_namelist')`, :736,758 `elems[-5].startswith('class_def_raw')` | ENTRY path / entry tag | n/a for names |
+  | primary.py:743,766 `DSN.elem_counts(tokens) == 2 and DSN.root(tokens) == 'self'` | element count and FIRST ELEMENT (since 4e765ba) | yes |
+  | naming.py:70 `alias_handler(alias_dsn(fullyname), …)` | whole key `aliases.<fullyname>` | yes: `aliasKey_inj`, `string_refines_naming` |
+  | naming.py:86,98,155 `DSN.join(namespace, domain_name)` | join with delimiter, empty parts dropped | yes: `string_refines_naming`; the guard `domain_name.startswith(namespace)` is refuted: `naming_startswith_counterexample` |
+  | naming.py:153 `DSN.shift(DSN.relativefy(namespace, module_path), -1)` | see dsn.py:123 | dead branch, string layer only |
+  | py2cpp.py:570 `calls.prop.tokens == '__init__'` | equality (since c8f2d33) | yes |
+  | py2cpp.py:685 `calls.tokens.startswith('Embed.static')` | bare prefix of a dotted reference | prefix-unsafe but the first element `Embed` is a library name (reserved): no user identifier reaches it; not modelled |
+  | py2cpp.py:687,703 `value.startswith(f'{var_type}(')` | rendered text, terminated by `(` | name-safe (`A(` is not a prefix of `AB(`); NOT structure-safe: `A(1).dup()` is taken for a constructor call and rendered `A x{1).dup(};` — genuine defect, not a renaming defect (proposed/C08-initializer-prefix-call-chain.md) |
+  | py2cpp.py:743 `throws.find('(')` | first `(` of a rendered call | names pass through; search only |
+  | py2cpp.py:781 `module_path.startswith(in_import.replace('/', '.'))` | module path vs configured import dir, bare prefix | module names are outside the renaming domain of C08; not modelled |
+  | py2cpp.py:126,433,440,849 | include paths, `#include` lines, numeric literals | no identifiers |
+  | py2cpp.py:200,354,386,484-489,1017,1217-1235,1347-1351 `tokens == <name>.__name__`, `in dict_iter_methods` | equality / membership with reserved words | yes |
+  | py2cpp.py:1756 RelayPattern `(.+)(->|::|\.)\w+$` | last operator + identifier | yes: `fragment_relay` |
+  | py2cpp.py:1758 DictIteratorPattern `(.+)(->|\.)(\w+)\(\)$` | last operator + identifier + `()` | yes: `fragment_dict_iterator` |
+  | py2cpp.py:1759 DeclClassVarNamePattern `\s+([\w\d_]+)\s+=` | first `ws word ws =` | yes for `<type> <name> = …` with a blank-free type: `fragment_class_var_name`; other shapes correspondence only |
+  | py2cpp.py:1760,1761 CVarRelaySubPattern / CVarToSubPattern `(->|::|\.)(on|raw|…)\(\)$` | operator + WHOLE word + `()` | yes: `fragment_cvar_suffix` (stripped iff the method name IS the word; `xon()`, `draw()` untouched) |
+  | py2cpp.py:1757 ListSortKeyPattern, :1793,1858,1874 BlockParser calls | lambda text / bracket blocks | search only (real-code equivariance); BlockParser is property C18 |
 -/
 import Tranp.Lemmas.Scope
 import Tranp.Lemmas.ScopeStr
+import Tranp.Lemmas.Naming
+import Tranp.Lemmas.Fragment
 
 namespace Tranp.C08
 open Tranp Tranp.Scope
@@ -246,6 +289,139 @@ example :
     (Scope.collect [Stmt.mk [[mkVar [['f']] ['x']]] [[Stmt.mk [[mkVar [['f'], ['i','f','@','3']] ['x']]] []]]]).length = 1 := by
   refine ⟨by decide +kernel, ?_, by decide +kernel⟩
   simp only [Stmt.AllBlock, Stmt.All, Stmt.AllBlocks, and_true]
+  decide +kernel
+
+
+/-! ## Part 3: class naming, member lookup by name, fragment post-processing -/
+
+section
+variable {M N N' : Type} [DecidableEq M] [DecidableEq N] [DecidableEq N']
+open Tranp.Naming
+
+/-- `ClassDomainNaming.domain_name / accessible_name / fullyname` (alias table, `Embed.alias`, enclosing classes) commute
+    with every injective renaming of the user names (alias texts are not names). -/
+theorem equivariant_naming (r : N → N') (hr : Function.Injective r) (aliases : Option (Aliases M N)) (tbl : Aliases M N)
+    (t : Bool) (ancestors : List (Cls M N)) (c : Cls M N) (mod : M) :
+    domainName (aliases.map (Aliases.map r)) t (c.map r) = (domainName aliases t c).map r ∧
+    accessibleName (Aliases.map r tbl) t (ancestors.map (Cls.map r)) (c.map r) = (accessibleName tbl t ancestors c).map (DomOut.map r) ∧
+    (Naming.fullyname (Aliases.map r tbl) (ancestors.map (Cls.map r)) (c.map r) mod).2 =
+      (Naming.fullyname tbl ancestors c mod).2.map (DomOut.map r) :=
+  ⟨domainName_map r hr aliases t c, accessibleName_map r hr tbl t ancestors c, accessibleName_map r hr tbl false ancestors c⟩
+
+/-- `Enum.var_value`: lookup of a member by its name commutes with every injective renaming. -/
+theorem equivariant_member_lookup {V : Type} (r : N → N') (hr : Function.Injective r) (vars : List (N × V)) (name : N) :
+    varValue (vars.map (fun nv => (r nv.1, nv.2))) (r name) = varValue vars name :=
+  varValue_map r hr vars name
+
+end
+
+open Tranp.NamingStr Tranp.ScopeStr in
+/-- Class naming on strings = the dotted string of the abstract pieces, for well-formed keys and non-empty names. -/
+theorem string_refines_naming (tbl : Naming.Aliases Str Str) (htbl : ∀ kv ∈ tbl, KeyOk kv.1) (t : Bool)
+    (ancestors : List (Naming.Cls Str Str)) (ha : ∀ a ∈ ancestors, ClsOk a) (c : Naming.Cls Str Str) (hc : ClsOk c)
+    (mod : Str) (hm : mod ≠ []) :
+    NamingStr.domainName (some (encAliases tbl)) t (encCls c) = encOut (Naming.domainName (some tbl) t c) ∧
+    NamingStr.domainName none t (encCls c) = encOut (Naming.domainName none t c) ∧
+    NamingStr.accessibleName (encAliases tbl) t (ancestors.map encCls) (encCls c) = encPieces (Naming.accessibleName tbl t ancestors c) ∧
+    NamingStr.fullyname (encAliases tbl) (ancestors.map encCls) (encCls c) mod =
+      dsnJoin [mod, encPieces (Naming.fullyname tbl ancestors c mod).2] :=
+  ⟨domainName_enc tbl htbl t c hc, domainName_noHandler_enc t c, accessibleName_enc tbl htbl t ancestors ha c hc,
+    fullyname_enc tbl htbl ancestors ha c hc mod hm⟩
+
+/-- the string layer of the member lookup IS the abstract lookup at `N := Str` (whole-name equality, no decoding involved) -/
+theorem string_refines_member_lookup {V : Type} (vars : List (Str × V)) (name : Str) :
+    NamingStr.varValue vars name = Naming.varValue vars name := rfl
+
+def clsBox : Naming.Cls Str Str := ⟨⟨['m'], [['B','o','x']]⟩, ['B','o','x'], none⟩
+def clsItem : Naming.Cls Str Str := ⟨⟨['m'], [['B','o','x'], ['I','t','e','m']]⟩, ['I','t','e','m'], none⟩
+def clsBoxItem : Naming.Cls Str Str := ⟨⟨['m'], [['B','o','x'], ['B','o','x','I','t','e','m']]⟩, ['B','o','x','I','t','e','m'], none⟩
+
+/-- non-vacuity + regression: `Box.Item` and `Box.BoxItem` are both qualified with their namespace -/
+example :
+    NamingStr.accessibleName [] true [NamingStr.encCls clsBox] (NamingStr.encCls clsItem) = ['B','o','x','.','I','t','e','m'] ∧
+    NamingStr.accessibleName [] true [NamingStr.encCls clsBox] (NamingStr.encCls clsBoxItem) = ['B','o','x','.','B','o','x','I','t','e','m'] ∧
+    NamingStr.ClsOk clsBox ∧ NamingStr.ClsOk clsBoxItem := by
+  refine ⟨by decide +kernel, by decide +kernel, ?_, ?_⟩ <;> (unfold NamingStr.ClsOk; decide +kernel)
+
+/-- REGRESSION for a seeded mutation: the refinement is FALSE for the variant of `accessible_name` that skips the namespace when
+    `domain_name.startswith(namespace)` (bare prefix): the nested class `Box.BoxItem` loses its namespace. -/
+def naming_startswith_statement : Prop :=
+  ∀ (ancestors : List (Naming.Cls Str Str)) (c : Naming.Cls Str Str), (∀ a ∈ ancestors, NamingStr.ClsOk a) → NamingStr.ClsOk c →
+    NamingStr.accessibleNameBroken [] true (ancestors.map NamingStr.encCls) (NamingStr.encCls c) =
+      NamingStr.encPieces (Naming.accessibleName [] true ancestors c)
+
+theorem naming_startswith_counterexample : ¬ naming_startswith_statement := by
+  intro h
+  have h1 := h [clsBox] clsBoxItem (by intro a ha; simp at ha; subst ha; unfold NamingStr.ClsOk; decide +kernel)
+    (by unfold NamingStr.ClsOk; decide +kernel)
+  revert h1
+  decide +kernel
+
+/-- REGRESSION for a seeded mutation: looking a member up by SUFFIX (`var_name.endswith(member)`) is not the lookup by name:
+    with members `RED`, `DARK_RED` the request `DARK_RED` finds `RED`. -/
+theorem member_lookup_suffix_counterexample :
+    ¬ ∀ (vars : List (Str × Nat)) (name : Str), NamingStr.varValueBroken vars name = NamingStr.varValue vars name := by
+  intro h
+  have h1 := h [(['R','E','D'], 1), (['D','A','R','K','_','R','E','D'], 2)] ['D','A','R','K','_','R','E','D']
+  revert h1
+  decide +kernel
+
+example : Naming.varValue [(['R','E','D'], 1), (['D','A','R','K','_','R','E','D'], 2)] ['D','A','R','K','_','R','E','D'] = some 2 := by
+  decide +kernel
+
+/-- `DSN.relativefy` as a function (dsn.py:111-126): the bare `origin.split(starts)[1]` is not "the path after `starts`". -/
+def relativefy_statement : Prop :=
+  ∀ starts rest : Str, starts ≠ [] → rest ≠ [] → (∀ c ∈ starts ++ rest, c ≠ '#') →
+    (∀ e ∈ Str.splitOn '.' starts ++ Str.splitOn '.' rest, e ≠ []) →
+    NamingStr.relativefy (starts ++ '.' :: rest) starts = some rest
+
+theorem relativefy_counterexample : ¬ relativefy_statement := by
+  intro h
+  have h1 := h ['a','b'] ['a','b','.','c'] (by decide) (by decide) (by decide +kernel) (by decide +kernel)
+  revert h1
+  decide +kernel
+
+/-! ### fragment post-processing (`PatternParser`): well-formed fragments are taken apart at their last operator, whatever the
+    identifiers are spelled like — so the functions commute with every renaming of identifier tokens -/
+
+open Tranp.Fragment in
+/-- `break_relay('recv<op>ident')` = `(recv, op)` for every identifier `ident` and every non-empty one-line receiver. -/
+theorem fragment_relay (recv ident : Str) (op : Op) (hr : recv ≠ []) (hn : '\n' ∉ recv) (hi : Word ident) :
+    breakRelay (recv ++ op.text ++ ident) = some (recv, op.text) :=
+  breakRelay_wf recv ident op hr hn hi
+
+open Tranp.Fragment in
+/-- `break_dict_iterator('recv<op>method()')` = `(recv, op, method)` for `op ∈ {->, .}`. -/
+theorem fragment_dict_iterator (recv m : Str) (op : Op) (hop : op ≠ .scope) (hr : recv ≠ []) (hn : '\n' ∉ recv) (hm : Word m) :
+    breakDictIterator (recv ++ op.text ++ m ++ ['(', ')']) = some (recv, op.text, m) :=
+  breakDictIterator_wf recv m op hop hr hn hm
+
+open Tranp.Fragment in
+/-- `sub_cvar_relay` / `sub_cvar_to` remove a trailing `<op>name()` exactly when `name` IS `on` / one of the cast words —
+    a method whose name merely ends with such a word (`xon`, `draw`) is left alone. -/
+theorem fragment_cvar_suffix (recv ident : Str) (op : Op) (hi : Word ident) :
+    subCvarRelay (recv ++ op.text ++ ident ++ ['(', ')']) =
+      (if onWord.contains ident then recv else recv ++ op.text ++ ident ++ ['(', ')']) ∧
+    subCvarTo (recv ++ op.text ++ ident ++ ['(', ')']) =
+      (if castWords.contains ident then recv else recv ++ op.text ++ ident ++ ['(', ')']) :=
+  ⟨subCallSuffix_call onWord recv ident op hi, subCallSuffix_call castWords recv ident op hi⟩
+
+open Tranp.Fragment in
+/-- `pluck_class_var_name('<type> <name> = …')` = `name` for a type without white space. -/
+theorem fragment_class_var_name (ty name rest : Str) (hty : ∀ c ∈ ty, isSpace c = false) (hn : Word name) :
+    pluckClassVarName (ty ++ ' ' :: name ++ ' ' :: '=' :: rest) = name :=
+  pluckClassVarName_simple ty name rest hty hn
+
+open Tranp.Fragment in
+/-- non-vacuity: `p.xon()` keeps its call, `p.on()` loses it, `a->b.items()` splits at the last operator -/
+example :
+    Word ['x','o','n'] ∧
+    subCvarRelay ['p','.','x','o','n','(',')'] = ['p','.','x','o','n','(',')'] ∧
+    subCvarRelay ['p','.','o','n','(',')'] = ['p'] ∧
+    subCvarTo ['p','-','>','d','r','a','w','(',')'] = ['p','-','>','d','r','a','w','(',')'] ∧
+    breakDictIterator ['a','-','>','b','.','i','t','e','m','s','(',')'] = some (['a','-','>','b'], ['.'], ['i','t','e','m','s']) ∧
+    breakRelay ['a',':',':','b','-','>','c'] = some (['a',':',':','b'], ['-','>']) ∧
+    pluckClassVarName ['i','n','t',' ','n',' ','=',' ','0',';'] = ['n'] := by
   decide +kernel
 
 end Tranp.C08
